@@ -189,7 +189,9 @@ detail::temporary_allocator_dtor_t::temporary_allocator_dtor_t() noexcept
 
 detail::temporary_allocator_dtor_t::~temporary_allocator_dtor_t() noexcept
 {
-    if (--nifty_counter == 0u && temp_stack)
+    // destroy the stacks even if the main thread never had one itself (only workers used temporary allocators)
+    // or has given it back already
+    if (--nifty_counter == 0u)
         temporary_stack_list_obj.destroy();
 }
 
